@@ -84,7 +84,21 @@ pub fn pieces<P: Kmer>(k: usize, seq: &[u8], perm: Option<&[usize]>, rcmode: boo
         "Lmer1" => msp_sequence::<P, Lmer<[u64; 1]>>(k, seq, perm, rcmode).into_iter().map(to_piece).collect(),
         "Lmer2" => msp_sequence::<P, Lmer<[u64; 2]>>(k, seq, perm, rcmode).into_iter().map(to_piece).collect(),
         "Lmer3" => msp_sequence::<P, Lmer<[u64; 3]>>(k, seq, perm, rcmode).into_iter().map(to_piece).collect(),
-        "DnaString" => msp_sequence::<P, DnaString>(k, seq, perm, rcmode).into_iter().map(to_piece).collect(),
+        "DnaString" => msp_sequence::<P, DnaString>(k, seq, perm, rcmode)
+            .into_iter()
+            .map(|x| {
+                // value identity, not only equal bases: the piece must be == to the string built from the same bases
+                let bytes: Seq = (0..x.2.len()).map(|i| x.2.get(i)).collect();
+                let reference = DnaString::from_bytes(&bytes);
+                let same_value = x.2 == reference && x.2.cmp(&reference) == std::cmp::Ordering::Equal;
+                let mut p = to_piece(x);
+                if !same_value {
+                    // flagged through an impossible bucket value; reported by the caller
+                    p.bucket = u32::MAX;
+                }
+                p
+            })
+            .collect(),
         _ => msp_sequence::<P, DnaBytes>(k, seq, perm, rcmode).into_iter().map(to_piece).collect(),
     }
 }
@@ -191,6 +205,12 @@ fn check<P: Kmer>(c: &Case) -> CheckResult {
                     start + len,
                     pc.exts,
                     want_l | (want_r << 4)
+                ));
+            }
+            if pc.bucket == u32::MAX && cname == "DnaString" {
+                return Err(format!(
+                    "read {} piece {}: the DnaString piece has the right bases but is not == to the string built from the same bases (spare storage / padding)",
+                    ri, pi
                 ));
             }
             if (pc.bucket as u64) >= (1u64 << (2 * p)) {
